@@ -60,5 +60,6 @@ def main(tier, seed):
 
 
 def replay(rep_json):
-    print("replay: re-run ./check C18 --tier thorough (fault cases are enumerated deterministically)")
-    return 2
+    from framework.props import _modelprop
+
+    return _modelprop.replay_job("C18", rep_json, "framework.props.mpfamily", "replay_fault")
